@@ -15,7 +15,7 @@ use crate::ktypes::kseq;
 use crate::model::{self, LEFT, RIGHT};
 use crate::pipeline::{build_base, ptable, PTable, PayKind, SumPay};
 use crate::props::gcase::{gcase, GCase};
-use crate::runner::{CheckResult, Env, Job, Outcome, PropJob};
+use crate::runner::{guarded, CheckResult, EnumJob, Env, Job, JobReport, Outcome, PropJob};
 use crate::util::{canon, is_pal, rc, splitmix, to_ascii, Seq};
 
 pub const RULE: &str = "case = finished graph built from a generated read set (all K types, stranded/unstranded, thresholds, three entry points) plus a 64-bit value that drives probes; checks: every node x side x base through find_link/edges against the string-level acceptable-answer set (landing node, arrival side, flip), edge lists = resolved extension bits in base order, symmetry (palindromic single-k-mer nodes: either side), W_total(graph) = (K+1)-mers between retained k-mers of the reads/table, node extension bytes = table extensions of the terminal k-mers, find_link for terminal k-mers, their reverse complements, 1-mismatch neighbours and random k-mers, random walks + max_path + max_path_beam spelled by sequence_of_path against model spelling with K-1 overlaps and no repeated node in max_path, get_valid_exts/fix_exts under random node bitsets. Separate jobs: remove_censored_exts and remove_censored_exts_sharded under random censor subsets against the model filter, bit for bit. Non-trivial = graph has >= 1 resolvable edge (pruning: >= 1 extension removed and >= 1 kept).";
@@ -647,9 +647,68 @@ fn build<K: Kmer + Send + Sync + 'static>(name: &'static str, _env: &Env) -> Vec
     ]
 }
 
+/// A k-mer observed more than 65 535 times whose last observations bring a NEW adjacency: the edge must not be lost.
+fn saturated_job<K: Kmer + Send + Sync + 'static>(name: &'static str) -> Box<dyn Job> {
+    fn make<K: Kmer>(seed: u64, variant: usize) -> GCase {
+        let k = K::k();
+        let b = (seed % 4) as u8;
+        let x = ((seed / 4) % 3 + 1 + b as u64) as u8 % 4; // x != b
+        let homo = vec![b; 65535 + k + 2 + variant];
+        let mut st = seed;
+        let mut late: Vec<u8> = vec![b; k];
+        late.push(x);
+        for _ in 0..k + 3 {
+            late.push((splitmix(&mut st) % 4) as u8);
+        }
+        let mut early: Vec<u8> = vec![x];
+        early.extend(vec![b; k]);
+        let recipes = match variant % 3 {
+            0 => vec![(crate::gen::reads::Recipe::Raw(homo), 0), (crate::gen::reads::Recipe::Raw(late), 1)],
+            1 => vec![(crate::gen::reads::Recipe::Raw(early), 1), (crate::gen::reads::Recipe::Raw(homo), 0), (crate::gen::reads::Recipe::Raw(late), 2)],
+            _ => vec![(crate::gen::reads::Recipe::Raw(late), 1), (crate::gen::reads::Recipe::Raw(homo), 0)],
+        };
+        GCase {
+            rs: crate::gen::reads::ReadSet { genome: Vec::new(), recipes },
+            stranded: seed & 16 != 0,
+            min_count: 1,
+            entry: crate::pipeline::Entry3::Hash,
+            shards: 0,
+            shard_pick: 0,
+            aux: seed,
+        }
+    }
+    EnumJob {
+        name: format!("saturated_counts/{}", name),
+        run: Box::new(move |env: &Env, rep: &mut JobReport| {
+            for variant in 0..3usize {
+                let seed = env.job_seed("saturated") ^ (variant as u64 * 977);
+                let c = make::<K>(seed, variant);
+                match guarded(|| check::<K, SumPay>(&c, &sum_score)) {
+                    Ok(_) => rep.pass(&Outcome::new(true).label(true, "kmer_with>65535_observations"), seed, || {
+                        serde_json::json!({"type": name, "variant": variant, "stranded": c.stranded})
+                    }),
+                    Err(m) => rep.fail(m, serde_json::json!({"seed": seed.to_string(), "variant": variant})),
+                }
+            }
+        }),
+        replay: Box::new(move |case: &serde_json::Value| {
+            let c = case.get("case").unwrap_or(case);
+            let seed: u64 = c.get("seed").and_then(|v| v.as_str()).and_then(|s| s.parse().ok()).ok_or("no seed")?;
+            let variant = c.get("variant").and_then(|v| v.as_u64()).ok_or("no variant")? as usize;
+            let gc = make::<K>(seed, variant);
+            Ok(guarded(|| check::<K, SumPay>(&gc, &sum_score)))
+        }),
+    }
+    .boxed()
+}
+
 #[cfg(not(fuzzing))]
 pub fn jobs(env: &Env) -> Vec<Box<dyn Job>> {
-    let mut out: Vec<Box<dyn Job>> = Vec::new();
+    let mut out: Vec<Box<dyn Job>> = vec![
+        saturated_job::<crate::ktypes::Kmer5>("Kmer5"),
+        saturated_job::<crate::ktypes::Kmer16>("Kmer16"),
+        saturated_job::<crate::ktypes::Kmer31>("Kmer31"),
+    ];
     crate::kmers_ge4!(build, out, env);
     out
 }
